@@ -196,4 +196,21 @@ PROPS = {
         "trusted_base": COMMON_TB + [SERDE_TB, "Spec/Conforms.lean (conforms, schemaParse) is the reading of 'conforms to the schema' this check commits to: kinds, field names and order, variant index/name/kind, arity, element types; struct/enum TYPE names are not compared", "the recording serializer of the harness"],
         "assumptions": ["no serde attributes that change a type's representation (the schema derive does not claim to see them)"],
     },
+    "C17": {
+        "gens": ["C17"],
+        "derive_programs": {"quick": 40, "thorough": 300},
+        "rule": "`dynagree <schema> <json> <bytes>`: REAL data of the C14 corpus (~150 concrete Rust types with Schema + Serialize: every integer width, chars, strings, byte slices, options, sequences, tuples and arrays of arity 0/1/n, structs of all four forms incl. zero-field ones, enums with all four variant forms, nested, string-keyed maps, the schema-of-schema kind, seed-generated derive programs) and candidate + random values, filtered to the property's scope by the harness (recorded call tree: integers within i64/u64, finite floats, string-keyed ascending maps, no Some(x) with JSON null): T::SCHEMA, serde_json::to_value(v), postcard::to_allocvec(v); the real to_stdvec_dyn / from_slice_dyn answers are compared with the model's and (oracle) with the static bytes / the JSON; non-trivial = distinct op line",
+        "nontrivial": lambda op, a: True,
+        "diff_is_witness": False,
+        "trusted_base": COMMON_TB + [SERDE_TB, "serde_json (Value, Number, Map = BTreeMap, to_value / from_value) is MODELLED (Model/Json.lean, JsonOf.lean)", "IEEE conversions are a parameter `FloatOps` of the model (hypotheses `FloatOk` in the theorems), instantiated with Lean's hardware Float/Float32 in the driver"],
+        "assumptions": ["64-bit target"],
+    },
+    "C18": {
+        "gens": ["C18"],
+        "rule": "`dynser <schema> <json>` on every node kind (incl. char, usize/isize, 128-bit, nested options, non-string-keyed maps, schema-of-schema) and random schemas x type-correct / near-miss / unrelated JSON; oracle: no panic, and whatever is accepted decodes again and re-encodes to the same bytes (failures classified as the listed findings only when the schema has the listed shape); `dynde <schema> <bytes>` on valid encodings, truncations, corruptions, random bytes, adversarial length prefixes under the counting allocator (bound 512*len+4096; the zero-width-element class is the listed finding, probed with a 2^16 claim); non-trivial = distinct op line",
+        "nontrivial": lambda op, a: True,
+        "diff_is_witness": False,
+        "trusted_base": COMMON_TB + ["serde_json MODELLED", "PARTIAL: real allocation is observed with a counting allocator; `allocDyn` is a cost model (number of Values / bytes), bounded by theorem only on the fragment without Enum/Map/Schema nodes", "stack depth is outside the model: decoding a schema VALUE nested ~30k deep overflows the real stack (observed, not checked)"],
+        "assumptions": ["64-bit target", "schemas with sequences of zero-width elements get no corrupted-length inputs beyond the explicit probe (time proportional to the claim by construction)"],
+    },
 }
